@@ -93,8 +93,22 @@ def run(ck):
         ck.fail_broken("wrapper rule: only %d public wrapper macros matched a library function (< 100)" % wr.get("wrappers", 0))
     prim = prim_common.primitive_rule(ck, prog, "C01", ck.report)
     bud = budget.rule(prog, ck.report, "C01", broken=ck.fail_broken)
+    # the Hangul decomposition routine (in the reach table of the bound engine) stores at most four elements at constant slots: every
+    # store must lie on a path that has established dmax >= slot + 1 (the rule of C17 that follows its paths anyway)
+    from . import c17 as _c17
+    class _Quiet:
+        def __init__(s): s.broken = []
+        def fail_broken(s, m): s.broken.append(m)
+    q = _Quiet()
+    wn = [f for f in prog.allfuncs if f.mod["tu"] == "src/extwchar/wcsnorm_s.c"]
+    hroom = _c17.hangul_decomp_rule(q, wn, [], lambda *a, **k: None, room_report=ck.report)
+    if q.broken or not hroom.get("stores_with_room"):
+        ck.fail_broken("Hangul room clause: " + (q.broken[0] if q.broken else "no store into dest judged"))
+    else:
+        # its writes are decided here: a changed count in the reach table for this one function is not 'analysis broken'
+        ck.broken = [m for m in getattr(ck, "broken", []) if "_decomp_hangul_s|W" not in m and "_decomp_hangul_s (" not in m]
     fx = selftest(ck)
-    cov = dict(cursor_and_count_loops=bud, primitives_by_byte_accounting={k: dict(paths=v.get("paths"), loops=v.get("loops"), iteration_paths=v.get("iteration_paths"), assumed_min_count=v.get("assumed_min_count"), call_sites=v.get("call_sites")) for k, v in prim.items()},
+    cov = dict(cursor_and_count_loops=bud, hangul_decomposition_room=dict(stores=hroom.get("stores_with_room"), paths=hroom.get("paths")), primitives_by_byte_accounting={k: dict(paths=v.get("paths"), loops=v.get("loops"), iteration_paths=v.get("iteration_paths"), assumed_min_count=v.get("assumed_min_count"), call_sites=v.get("call_sites")) for k, v in prim.items()},
                explanation="%d write obligations over all function definitions of the 140 TUs: %d discharged (offset and upper bound entailed from loop invariants, guards and the caller's "
                "truthfulness premise), %d outside the reach of the domain in %d functions (listed with reasons, not claimed), the rest matched against known findings or reported."
                % (st["total"], st["discharged"], st["outside_reach"], len(st["outside_reach_functions"])),
